@@ -20,8 +20,50 @@ def pruned_blocks(fn, prune):
     return seen
 
 
+def _whole_defs(fn):
+    """{local: [rvalue or None]} every definition of a whole local (None = defined by a call or otherwise opaque)"""
+    d = getattr(fn, '_whole_defs', None)
+    if d is None:
+        d = {}
+        for bb in fn.reachable_blocks():
+            b = fn.blocks[bb]
+            for s in b['stmts']:
+                if s['k'] == 'assign' and not s['p']['pr']:
+                    d.setdefault(s['p']['l'], []).append(s['rv'])
+            t = b['term']
+            if t['k'] == 'call' and not t['dest']['pr']:
+                d.setdefault(t['dest']['l'], []).append(None)
+        fn._whole_defs = d
+    return d
+
+
+def param_source(fn, l):
+    """(param index, inverted) if local l is, through a chain of single definitions anywhere in the function, a (possibly negated) copy of a parameter.
+    (After helper functions are folded in, the helper's own parameter is such a copy of the caller's.)"""
+    inv = False
+    defs = _whole_defs(fn)
+    for _ in range(12):
+        if 1 <= l <= fn.argc:
+            return l, inv
+        ds = defs.get(l, [])
+        if len(ds) != 1 or ds[0] is None:
+            return None, False
+        rv = ds[0]
+        if rv['k'] == 'use' and op_local(rv['op']) is not None and not rv['op']['p']['pr']:
+            l = op_local(rv['op'])
+        elif rv['k'] == 'un' and rv['op'] == 'Not' and op_local(rv['a']) is not None and not rv['a']['p']['pr']:
+            l = op_local(rv['a'])
+            inv = not inv
+        else:
+            return None, False
+    return None, False
+
+
 def _param_source(fn, bb, l):
     """(param index, inverted) if local l is a (possibly negated) copy of a parameter, following definitions in block bb"""
+    p, inv = param_source(fn, l)
+    if p is not None:
+        return p, inv
     inv = False
     for _ in range(4):
         if 1 <= l <= fn.argc:
